@@ -1,4 +1,5 @@
 import FpVerif.Lemmas.PromiseFinal
+import FpVerif.Lemmas.PromiseFair
 /-!
 # C05 — Promise: single assignment and exactly-once callback delivery.
 
@@ -10,6 +11,8 @@ observing threads; "already registered callbacks" are registrations the schedule
 * Part B (exactly-once) holds for the repaired algorithm `Variant.copyFirst`
   (`append(status[:len(status):len(status)], cb)`); Part C is the kernel-checked witness that
   future.go as written (`Variant.asIs`, in-place `append` into shared spare capacity) violates it.
+* Part B' (AUDITFIX, audit finding 18): the PER-CALLBACK exactly-once theorems that need no global
+  quiescence, `∃!` for "exactly one Complete returns true", and the FAIR-schedule corollaries.
 * Part D: the zero-value Promise.
 -/
 namespace FpVerif.Spec.C05
@@ -112,8 +115,13 @@ theorem round_robin_reaches_quiescence (v : Variant) (progs : List (Prog R)) (sc
       (finishSched (prun v (init false progs) sched))) = true :=
   roundRobin_finishes v _ _ (InvA_run v (InvA_init progs) sched) (Nat.le_refl _)
 
-/-- At quiescence the promise is completed iff some thread called `Complete`,
-    and then exactly one of the `Complete` calls returned true. -/
+/-- At quiescence the promise is completed iff some thread called `Complete`, and then AT LEAST
+    one `Complete` call is the winner: it returned true — or (possible only for `Variant.asIs`,
+    future.go as written, where an in-place `append` can leave a nil slot) it won the CAS and
+    then panicked inside its callback loop.  (The doc used to say "exactly one returned true";
+    this statement alone gives existence for both variants; uniqueness is
+    `at_most_one_complete_returns_true`; for the current code (`copyFirst`) the `∃!` form without
+    the panic disjunct is `exactly_one_complete_returns_true` below.) -/
 theorem completed_iff_some_complete (v : Variant) (progs : List (Prog R)) (sched : List Tid)
     (hq : allFinished (prun v (init false progs) sched) = true) :
     ((prun v (init false progs) sched).shared.cell.isDone = true ↔ ∃ p ∈ progs, p.isComplete = true) ∧
@@ -261,6 +269,205 @@ theorem delivered_exactly_once {α : Type} (progs : List (Prog (Try α))) (sched
   · intro p hp
     exact hval p (List.mem_filter.mp hp).1
 
+
+/-! ## Part B' — exactly-once PER CALLBACK, without global quiescence; `∃!`; fair schedules
+
+(AUDITFIX-B, audit finding 18.)  `exactly_once_at_quiescence` needs `allFinished`: EVERY thread of
+the system has returned.  The conservation invariant `InvB.cons` says more: a callback is always in
+exactly as many places (a registering thread, the cell's slice, the remaining part of the running
+completer's captured slice, the log) as it was registered.  So as soon as
+  (1) the `Complete` call that won has returned (then the cell is `done` and no completer is inside
+      its callback loop — there is at most one winner), and
+  (2) the threads registering THIS callback have returned,
+every registration of this callback is in the log — whatever the other threads (other
+registrations, losing `Complete` calls, observers) are doing, finished or not. -/
+
+/-- the general counting form: cell done, no thread inside the callback loop of `Complete`, the
+    registrations of `cb` have returned ⇒ `cb` has been invoked exactly as often as registered -/
+theorem callback_count_settled (progs : List (Prog R)) (sched : List Tid) (cb : Cb)
+    (hd : (prun .copyFirst (init false progs) sched).shared.cell.isDone = true)
+    (hrun : ∀ l ∈ (prun .copyFirst (init false progs) sched).threads, ∀ r sl i c, l ≠ .cRun r sl i c)
+    (hreg : ∀ l ∈ (prun .copyFirst (init false progs) sched).threads,
+      l.prog = .register cb → l.finished = true) :
+    invocations cb (prun .copyFirst (init false progs) sched) = (regCbs progs).count cb := by
+  obtain ⟨hA, hB⟩ := InvAB_run (InvA_init progs) (InvB_init progs) sched
+  generalize prun .copyFirst (init false progs) sched = s at *
+  have h := hB.cons cb
+  simp only [occ] at h
+  have h0 : sumBy (holds cb s.shared) s.threads = 0 :=
+    sumBy_zero (fun x hx => holds_zero_of_settled cb s.shared x (hreg x hx) (hrun x hx))
+  have h1 : cellCount cb s.shared = 0 := by
+    unfold cellCount
+    cases hc : s.shared.cell <;> simp_all [Cell.isDone]
+  unfold invocations
+  unfold logCount at h
+  omega
+
+/-- PER-CALLBACK EXACTLY-ONCE.  Once the winning `Complete` call (thread `i`) has returned true and
+    the threads registering `cb` have returned, `cb` has been invoked exactly as often as it was
+    registered — no hypothesis on any other thread. -/
+theorem callback_exactly_once (progs : List (Prog R)) (sched : List Tid) (cb : Cb) (i : Nat) (r : R)
+    (hwin : (prun .copyFirst (init false progs) sched).threads[i]? = some (.cRet r true))
+    (hreg : ∀ l ∈ (prun .copyFirst (init false progs) sched).threads,
+      l.prog = .register cb → l.finished = true) :
+    invocations cb (prun .copyFirst (init false progs) sched) = (regCbs progs).count cb := by
+  have hA := InvA_run .copyFirst (InvA_init progs) sched
+  have hd : (prun .copyFirst (init false progs) sched).shared.cell = .done r := by
+    simpa [TInvA] using hA.threads _ (List.mem_of_getElem? hwin)
+  exact callback_count_settled progs sched cb (by rw [hd]; rfl)
+    (no_cRun_of_winner_returned hA hwin) hreg
+
+/-- … and it stays so under every continuation of the schedule (the other threads may go on). -/
+theorem callback_exactly_once_stable (progs : List (Prog R)) (sched more : List Tid) (cb : Cb)
+    (i : Nat) (r : R)
+    (hwin : (prun .copyFirst (init false progs) sched).threads[i]? = some (.cRet r true))
+    (hreg : ∀ l ∈ (prun .copyFirst (init false progs) sched).threads,
+      l.prog = .register cb → l.finished = true) :
+    invocations cb (prun .copyFirst (init false progs) (sched ++ more)) = (regCbs progs).count cb := by
+  have h1 := callback_exactly_once progs sched cb i r hwin hreg
+  have h2 := at_most_once progs (sched ++ more) cb
+  have hmono := invocations_mono .copyFirst cb (prun .copyFirst (init false progs) sched) more
+  have hrun : prun .copyFirst (init false progs) (sched ++ more) =
+      prun .copyFirst (prun .copyFirst (init false progs) sched) more := run_append _ _ _
+  rw [hrun] at h2 ⊢
+  omega
+
+/-- The user-visible form of the per-callback theorem: callbacks pairwise distinct, the winning
+    `Complete(r)` has returned, the registration of `cb` has returned ⇒ the user callback behind
+    `cb` has been delivered exactly once if its filter (`OnComplete` / `OnSuccess` / `OnFailure`)
+    accepts `r`, not at all otherwise, and every delivery so far carries `r`. -/
+theorem callback_delivered_exactly_once {α : Type} (progs : List (Prog (Try α))) (sched : List Tid)
+    (hnd : (regCbs progs).Nodup) (cb : Cb) (hcb : cb ∈ regCbs progs) (i : Nat) (r : Try α)
+    (hwin : (prun .copyFirst (init false progs) sched).threads[i]? = some (.cRet r true))
+    (hreg : ∀ l ∈ (prun .copyFirst (init false progs) sched).threads,
+      l.prog = .register cb → l.finished = true) :
+    ((delivered (prun .copyFirst (init false progs) sched).shared.log).filter
+        (fun p => p.1 = cb)).length = (if cb.wants r then 1 else 0) ∧
+    ∀ p ∈ delivered (prun .copyFirst (init false progs) sched).shared.log, p.2 = r := by
+  have hex := callback_exactly_once progs sched cb i r hwin hreg
+  have hA := InvA_run .copyFirst (InvA_init progs) sched
+  have hd : (prun .copyFirst (init false progs) sched).shared.cell = .done r := by
+    simpa [TInvA] using hA.threads _ (List.mem_of_getElem? hwin)
+  generalize prun .copyFirst (init false progs) sched = s at *
+  have hval : ∀ p ∈ s.shared.log, p.2 = r := by
+    intro p hp
+    have := hA.log p hp
+    rw [hd] at this
+    injection this with h
+    exact h.symm
+  have hone : (s.shared.log.map (·.1)).count cb = 1 := by
+    have h1 : (regCbs progs).count cb = 1 := by rw [hnd.count]; simp [hcb]
+    simpa [invocations, h1] using hex
+  constructor
+  · rw [delivered_filter_length r cb _ hval, hone]
+  · intro p hp
+    exact hval p (List.mem_filter.mp hp).1
+
+/-- the old quiescence theorem (completed case) is the special case "every thread has returned" -/
+theorem exactly_once_at_quiescence_of_settled (progs : List (Prog R)) (sched : List Tid)
+    (hq : allFinished (prun .copyFirst (init false progs) sched) = true) (cb : Cb)
+    (hd : (prun .copyFirst (init false progs) sched).shared.cell.isDone = true) :
+    invocations cb (prun .copyFirst (init false progs) sched) = (regCbs progs).count cb := by
+  simp only [allFinished, List.all_eq_true] at hq
+  refine callback_count_settled progs sched cb hd (fun l hl r sl i c heq => ?_) (fun l hl _ => hq l hl)
+  have := hq l hl
+  rw [heq] at this
+  simp [Local.finished] at this
+
+/-- EXACTLY ONE `Complete` call returns true (current code, at quiescence, `∃!`): if some thread
+    calls `Complete` there is a unique thread index whose call returned true; all the other
+    `Complete` calls returned false. -/
+theorem exactly_one_complete_returns_true (progs : List (Prog R)) (sched : List Tid)
+    (hq : allFinished (prun .copyFirst (init false progs) sched) = true)
+    (hex : ∃ p ∈ progs, Prog.isComplete p = true) :
+    (∃ i : Nat, (∃ r : R, (prun .copyFirst (init false progs) sched).threads[i]? = some (Local.cRet r true)) ∧
+      ∀ j : Nat, (∃ r : R, (prun .copyFirst (init false progs) sched).threads[j]? = some (Local.cRet r true)) →
+        j = i) ∧
+    (∀ (j : Nat) (r : R), progs[j]? = some (Prog.complete r) →
+      ∃ b, (prun .copyFirst (init false progs) sched).threads[j]? = some (Local.cRet r b)) := by
+  obtain ⟨i, r, h | h⟩ := (completed_iff_some_complete .copyFirst progs sched hq).2 hex
+  · refine ⟨⟨i, ⟨r, h⟩, fun j ⟨r', hj⟩ => ?_⟩, ?_⟩
+    · exact at_most_one_complete_returns_true .copyFirst progs sched j i r' r hj h
+    · intro j r' hj
+      have hprogs : (prun .copyFirst (init false progs) sched).threads.map Local.prog = progs := by
+        rw [prog_run, progs_init]
+      have hnp := no_panic progs sched
+      generalize prun .copyFirst (init false progs) sched = s at *
+      rw [← hprogs] at hj
+      simp only [List.getElem?_map, Option.map_eq_some_iff] at hj
+      obtain ⟨l, hl, hp⟩ := hj
+      have hf : l.finished = true := by
+        simp only [allFinished, List.all_eq_true] at hq
+        exact hq l (List.mem_of_getElem? hl)
+      cases l <;> simp [Local.finished] at hf <;> simp [Local.prog] at hp
+      · rename_i r'' b; subst hp; exact ⟨b, hl⟩
+      · rename_i p'; exact absurd (List.mem_of_getElem? hl) (hnp p')
+  · exact absurd (List.mem_of_getElem? h) (no_panic progs sched _)
+
+/-- `∃!`-style packaging of the first half (core Lean has no `∃!` notation) -/
+theorem existsUnique_complete_returns_true (progs : List (Prog R)) (sched : List Tid)
+    (hq : allFinished (prun .copyFirst (init false progs) sched) = true)
+    (hex : ∃ p ∈ progs, Prog.isComplete p = true) :
+    ∃ i : Nat, (fun i : Nat => ∃ r, (prun .copyFirst (init false progs) sched).threads[i]? =
+            some (Local.cRet r true)) i ∧
+      ∀ j : Nat, (fun i : Nat => ∃ r, (prun .copyFirst (init false progs) sched).threads[i]? =
+            some (Local.cRet r true)) j → j = i :=
+  (exactly_one_complete_returns_true progs sched hq hex).1
+
+/-! ### fair schedules -/
+
+/-- FAIR SCHEDULES REACH QUIESCENCE (both variants).  `σ` is an infinite schedule; `Fair` says
+    only that a thread which is unfinished after `n` entries is named again by some later entry
+    (weak fairness, and only for threads that still have work).  Then after finitely many entries
+    every thread has returned, and nothing changes afterwards.  (`round_robin_reaches_quiescence`
+    is one particular fair schedule.) -/
+theorem fair_schedule_reaches_quiescence (v : Variant) (progs : List (Prog R)) (σ : Nat → Tid)
+    (hfair : Fair v (init false progs) σ) :
+    ∃ n, ∀ m, n ≤ m → allFinished (prun v (init false progs) (prefixOf σ m)) = true ∧
+      prun v (init false progs) (prefixOf σ m) = prun v (init false progs) (prefixOf σ n) :=
+  fair_finishes_stable v _ (InvA_init progs) σ hfair
+
+/-- the same from any reachable state: after an arbitrary finite prefix `sched`, any fair
+    continuation reaches quiescence -/
+theorem fair_continuation_reaches_quiescence (v : Variant) (progs : List (Prog R))
+    (sched : List Tid) (σ : Nat → Tid)
+    (hfair : Fair v (prun v (init false progs) sched) σ) :
+    ∃ n, allFinished (prun v (init false progs) (sched ++ prefixOf σ n)) = true := by
+  obtain ⟨n, hn⟩ := fair_finishes v _ (InvA_run v (InvA_init progs) sched) σ hfair
+  refine ⟨n, ?_⟩
+  show allFinished (run (stepT v) _ (sched ++ prefixOf σ n)) = true
+  rw [run_append]; exact hn
+
+/-- finite form: any schedule that contains `measure` many fair rounds (segments naming every
+    thread) ends in a quiescent state — `finishSched` is the instance made of `List.range n`s -/
+theorem fair_rounds_reach_quiescence (v : Variant) (progs : List (Prog R)) (sched rounds : List Tid)
+    (hr : HasRounds progs.length (Promise.measure (prun v (init false progs) sched)) rounds) :
+    allFinished (prun v (prun v (init false progs) sched) rounds) = true := by
+  apply rounds_finish v _ _ (InvA_run v (InvA_init progs) sched) rounds (Nat.le_refl _)
+  rw [length_run]
+  simpa [init] using hr
+
+/-- LIVENESS OF DELIVERY (current code): under every fair schedule, eventually and for ever
+    after, the promise is completed iff some thread calls `Complete`, and then every registered
+    callback has been invoked exactly as often as it was registered. -/
+theorem fair_schedule_delivers (progs : List (Prog R)) (σ : Nat → Tid)
+    (hfair : Fair .copyFirst (init false progs) σ) :
+    ∃ n, ∀ m, n ≤ m → ∀ cb,
+      invocations cb (prun .copyFirst (init false progs) (prefixOf σ m)) =
+        if (∃ p ∈ progs, Prog.isComplete p = true) then (regCbs progs).count cb else 0 := by
+  obtain ⟨n, hn⟩ := fair_schedule_reaches_quiescence .copyFirst progs σ hfair
+  refine ⟨n, fun m hm cb => ?_⟩
+  obtain ⟨hq, _⟩ := hn m hm
+  rw [exactly_once_at_quiescence progs _ hq cb]
+  have := (completed_iff_some_complete .copyFirst progs _ hq).1
+  by_cases hc : ∃ p ∈ progs, Prog.isComplete p = true
+  · simp [hc, this.mpr hc]
+  · have hnd : (prun .copyFirst (init false progs) (prefixOf σ m)).shared.cell.isDone = false := by
+      cases hd : (prun .copyFirst (init false progs) (prefixOf σ m)).shared.cell.isDone with
+      | false => rfl
+      | true => exact absurd (this.mp hd) hc
+    simp [hc, hnd]
+
 /-! ## Part C — future.go as written violates exactly-once (kernel-checked witness)
 
 Three callbacks are registered (slice `len 3, cap 4`), then two registrations race:
@@ -308,7 +515,21 @@ example :
 
 /-- On a zero-value promise nothing ever happens: every `Complete` has returned false, every
     registration has returned without effect, observers see "not completed"; no schedule changes
-    anything and nothing panics. -/
+    anything and nothing panics.
+
+    WHAT IS AND IS NOT MODELLED.  The only thing of future.go this theorem rests on is
+    `Prog.start true`: the guards `if r.status == nil { return false }` (`Complete`, future.go),
+    `if r.status == nil { return }` (`dispatchOrAddCallback`) and `IsCompleted() = false` on a nil
+    `status` are transcribed there as "the thread starts in its returned state".  Given that
+    transcription the statement is true BY CONSTRUCTION of the model (every thread is `finished`
+    from the start, so no schedule has an enabled step); it is a sanity statement about the
+    model — "the zero branch never touches the shared cell" — not a verification of the Go
+    guards.  That the Go methods really have these guards (and do not dereference the nil
+    `*atomic.Reference`) is checked only by the harness (`harness/cmd/promise`, zero-value
+    cases: `Complete` returns false, `OnComplete` never fires, `IsCompleted` false, no panic).
+    NOT modelled: `Future.Value()` / `Await` on a zero-value future, `Promise.Success/Failure`
+    wrappers (they call `Complete`), and a zero `Future{}` obtained otherwise than from a zero
+    `Promise`. -/
 theorem zero_value (v : Variant) (progs : List (Prog R)) (sched : List Tid) :
     prun v (init true progs) sched = init true progs ∧
     allFinished (init true progs) = true ∧
@@ -339,5 +560,27 @@ example : allFinished (prun .copyFirst (init false witnessProgs) witnessSched) =
 /-- CAS failures really occur (the retry loop is exercised) -/
 example : (prun .copyFirst (init false witnessProgs) (witnessSched.take 14)).threads[4]? =
     some (.rGet ⟨5, .all⟩) := by decide
+
+
+/-- the hypotheses of the per-callback theorem are satisfiable strictly BEFORE quiescence:
+    callbacks 1–3 are registered, `Complete` has run to its end and returned true, threads 3 and 4
+    (registrations of callbacks 4 and 5) have not even started: not `allFinished`, yet
+    `callback_exactly_once` applies to callback 2 (and gives 1). -/
+example :
+    let sched : List Tid := [0, 0, 1, 1, 1, 2, 2, 2, 5, 5, 5, 5, 5]
+    let s := prun .copyFirst (init false witnessProgs) sched
+    allFinished s = false ∧ s.threads[5]? = some (.cRet (.success 7) true) ∧
+    (∀ l ∈ s.threads, l.prog = .register ⟨2, .all⟩ → l.finished = true) ∧
+    invocations ⟨2, .all⟩ s = 1 := by
+  decide
+
+/-- fair infinite schedules exist: round robin over the six witness threads -/
+example : Fair .copyFirst (init false witnessProgs) (fun n => n % 6) := by
+  apply Fair.of_infinitely_often
+  intro n t ht
+  have ht : t < 6 := by simpa [init, witnessProgs] using ht
+  refine ⟨6 * n + t, by omega, ?_⟩
+  show (6 * n + t) % 6 = t
+  omega
 
 end FpVerif.Spec.C05
